@@ -2,6 +2,10 @@
 (* Model-checking / generation wrapper for ChainImport (C13). *)
 EXTENDS ChainImport
 NoPrune == -1          \* cfg files cannot spell negative numbers
-UpTo(n) == 0..n
-From1(n) == 1..n
+GateOpen(k) == TRUE
+(* simulation only: per-step probability (in percent) that an action of kind k may be taken *)
+GateRandom(k) ==
+    RandomElement(1..100) <= (CASE k = "mid" -> 3 [] k = "crash" -> 2 [] k = "fork" -> 30
+                                [] k = "extend" -> 25 [] k = "restart" -> 12 [] k = "fault" -> 8
+                                [] OTHER -> 100)
 =============================================================================
